@@ -136,10 +136,256 @@ def run_stream(ctx, stream, progs, check_parse=True, nontrivial=None, keep_lines
     return srcs, go, model, spec
 
 
+# =================================================================================================
+# the same programs with some of their methods / types in an imported module (C09 / C18 across modules)
+# =================================================================================================
+
+MODULE_NAME = '辅'
+
+
+def _names(node, refs, binds):
+    """names a piece of a generated program refers to (variables, called methods, constructed / thrown types) and names it binds
+    (令 / 遍历 / 输入 / 得到).  Member names after 之 / 其 and method names of a chain are not names of the scope."""
+    if node is None or isinstance(node, (str, int, float, bool)):
+        return
+    if isinstance(node, (list, tuple)):
+        for x in node:
+            _names(x, refs, binds)
+        return
+    if isinstance(node, Var):
+        refs.add(node.name)
+    elif isinstance(node, Call):
+        refs.add(node.name)
+        _names(node.args, refs, binds)
+        if node.yld:
+            binds.add(node.yld)
+    elif isinstance(node, MCall):
+        _names(node.root, refs, binds)
+        for _, args in node.chain:
+            _names(args, refs, binds)
+        if node.yld:
+            binds.add(node.yld)
+    elif isinstance(node, New):
+        refs.add(node.cls)
+        _names(node.args, refs, binds)
+    elif isinstance(node, Throw):
+        refs.add(node.cls)
+        _names(node.args, refs, binds)
+    elif isinstance(node, Bin):
+        _names([node.l, node.r], refs, binds)
+    elif isinstance(node, (Brace, ExprS, Ret)):
+        _names(node.e, refs, binds)
+    elif isinstance(node, Arr):
+        _names(node.items, refs, binds)
+    elif isinstance(node, Dict):
+        for k, v in node.kvs:
+            _names(v, refs, binds)
+    elif isinstance(node, Index):
+        _names([node.root, node.idx], refs, binds)
+    elif isinstance(node, Prop):
+        _names(node.root, refs, binds)
+    elif isinstance(node, Assign):
+        _names([node.target, node.e], refs, binds)
+    elif isinstance(node, Decl):
+        binds.update(node.names)
+        _names(node.e, refs, binds)
+    elif isinstance(node, DeclBlock):
+        for names, e, _ in node.pairs:
+            binds.update(names)
+            _names(e, refs, binds)
+    elif isinstance(node, If):
+        _names([node.cond, node.then, node.els], refs, binds)
+        for c, b in node.elifs:
+            _names([c, b], refs, binds)
+    elif isinstance(node, While):
+        _names([node.cond, node.body], refs, binds)
+    elif isinstance(node, Iter):
+        binds.update(node.names)
+        _names([node.e, node.body], refs, binds)
+    elif isinstance(node, Func):
+        binds.update(node.inputs)
+        _names(node.body, refs, binds)
+        for _, blk in node.catches:
+            _names(blk, refs, binds)
+    elif isinstance(node, Class):
+        for _, e in node.props:
+            _names(e, refs, binds)
+        _names(node.methods, refs, binds)
+        _names(node.getters, refs, binds)
+    # Num, Str, This, Raw (comments), Break, Continue: nothing
+
+
+def split_program(p, rng, modname=MODULE_NAME):
+    """(main program importing `modname`, module program) — a closed set of the program's top-level methods / types (a type together
+    with its constructor) moved into a module file: closed = what they call, construct or throw goes with them, and none of them
+    reads or writes a variable of the program body (a method runs in the scope of its OWN module).  None if no such set exists.
+    By C15 (an imported method behaves as inside its own module) result and trace are those of the one-file program."""
+    if p.imports or p.inputs:
+        return None
+    units = {}
+    for st in p.body:
+        if isinstance(st, (Func, Class)):
+            units.setdefault(st.name, []).append(st)
+    rest = [st for st in p.body if not isinstance(st, (Func, Class))]
+    vrefs, vbinds = set(), set()
+    _names(rest, vrefs, vbinds)
+    for _, blk in p.catches:
+        _names(blk, vrefs, vbinds)
+    free = {}
+    for n, ds in units.items():
+        plain = [d for d in ds if isinstance(d, Func) and not d.ctor]
+        types = [d for d in ds if isinstance(d, Class)]
+        if any(getattr(d, 'tag', None) for d in ds) or len(plain) > 1 or len(types) > 1 or (plain and len(ds) > 1) or \
+                (not plain and not types):
+            free[n] = None              # a planted declaration fault, a name declared twice, a constructor without its type: stays
+            continue
+        r, b = set(), set()
+        _names(ds, r, b)
+        free[n] = r - b
+    def closure(seeds, start=()):
+        S, work = set(start), list(seeds)
+        while work:
+            n = work.pop()
+            if n in S:
+                continue
+            if free.get(n) is None or (free[n] & vbinds):
+                return None
+            S.add(n)
+            work += [m for m in free[n] if m in units and m not in S]
+        return S
+    closures = [c for c in (closure([n]) for n in sorted(units)) if c]
+    if not closures:
+        return None
+    # biased towards large sets (a whole tail of the call chain) over single leaves
+    S = rng.choice(closures) if rng.random() < 0.35 else max(rng.sample(closures, min(3, len(closures))), key=len)
+    for extra in closures:
+        if rng.random() < 0.25:
+            S = S | extra
+    if True:
+        moved = [st for st in p.body if isinstance(st, (Func, Class)) and st.name in S]
+        kept = [st for st in p.body if not (isinstance(st, (Func, Class)) and st.name in S)]
+        # what the importer needs by name: everything it calls, constructs or throws
+        krefs, kb = set(), set()
+        _names(kept, krefs, kb)
+        for _, blk in p.catches:
+            _names(blk, krefs, kb)
+        needed = sorted(n for n in S if n in krefs)
+        if rng.random() < 0.5 and needed:
+            items = list(needed)
+            rng.shuffle(items)
+        else:
+            items = []
+        main = Program([], kept, p.catches, imports=[(2, modname, items, '\n')])
+        mod = Program([], moved)
+        main.moved = sorted(S)
+        return main, mod
+
+
+def run_split_stream(ctx, stream, progs, nontrivial=None, limit=None):
+    """every program of `progs` (zngen.Program, inputs) that `split_program` can split, run as two files: Go `runfiles` = evaluator model
+    `runfilesast` on the trees the real parser built for both files (whole answer: result, trace, error code, location chain with
+    module names), and Go result / trace = spec semantics on the intended tree of the ONE-file program.
+    Returns [(original program, main program, module program, main source, module source, go answer)]."""
+    rng = ctx.rng
+    out = []
+    for p, ins in progs:
+        if limit is not None and len(out) >= limit:
+            break
+        if ins:
+            continue
+        sp = split_program(p, rng)
+        if sp is None:
+            ctx.count(stream + ':not-splittable')
+            continue
+        main, mod = sp
+        _, one_sx = p.render(rng)
+        msrc, msx = main.render(rng)
+        dsrc, dsx = mod.render(rng)
+        out.append([p, main, mod, msrc, dsrc, one_sx, msx, dsx])
+    if not out:
+        ctx.streams.append({'stream': stream, 'cases': 0})
+        return []
+    mfile, dfile = '主.zn', MODULE_NAME + '.zn'
+    go_lines = ['runfiles 2 %s %s %s %s %s' % (hx(mfile), cps(o[3]), hx(dfile), cps(o[4]), hx(mfile)) for o in out]
+    ast_lines = ['ast ' + cps(o[3]) for o in out] + ['ast ' + cps(o[4]) for o in out]
+    go = ctx.run_go(go_lines)
+    ast = ctx.run_go(ast_lines)
+    for lines, answers in ((go_lines, go), (ast_lines, ast)):
+        for k, ans in enumerate(answers):
+            if ans.startswith(('timeout', 'crash')):
+                answers[k] = ctx.run_go([lines[k]], timeout_ms=30000, parallel=False)[0]
+                ctx.count(stream + ':rerun-alone')
+    n = len(out)
+    mlines, slines = [], []
+    for k, o in enumerate(out):
+        am, ad = ast[k], ast[n + k]
+        if am.startswith('ok ') and ad.startswith('ok '):
+            tm, td = am[3:].split(' '), ad[3:].split(' ')
+            mlines.append('runfilesast %s 2 %s %d %s %s %d %s' % (hx(mfile), hx(mfile), len(tm), ' '.join(tm), hx(dfile), len(td), ' '.join(td)))
+        else:
+            mlines.append('noop')
+        slines.append('spec:runast 0 %s' % o[5])
+    model = ctx.run_lean(mlines)
+    spec = ctx.run_lean(slines)
+    res = []
+    n_unspec = n_unmod = 0
+    for k, o in enumerate(out):
+        ctx.evaluations += 1
+        case = go_lines[k]
+        g, m, s = go[k], model[k], spec[k]
+        am, ad = ast[k], ast[n + k]
+        if not am.startswith('ok ') or not ad.startswith('ok '):
+            ctx.violation(stream + ':parse-rejected', case, am if not am.startswith('ok ') else ad, o[6][:300])
+            continue
+        if strip_lines(am[3:]) != strip_lines(o[6]) or strip_lines(ad[3:]) != strip_lines(o[7]):
+            ctx.violation(stream + ':parse-tree', case, strip_lines(am[3:])[:400] + ' // ' + strip_lines(ad[3:])[:400],
+                          strip_lines(o[6])[:400] + ' // ' + strip_lines(o[7])[:400])
+        if m == 'unmodelled':
+            n_unmod += 1
+        elif m in ('fuel',) and g.startswith('timeout'):
+            pass
+        elif not model_matches(g, m):
+            ctx.disagreement(stream, case, g, m)
+        if s in ('unspecified', 'fuel') or s.startswith('fatal'):
+            n_unspec += 1
+            if s.startswith('fatal') and not g.startswith('err'):
+                ctx.violation(stream + ':fatal-accepted', case, g, s)
+        else:
+            pg = project(g)
+            if pg != s and not model_matches(pg, s):
+                ctx.violation(stream, case, g, s)
+        if nontrivial is None or nontrivial(o[3] + o[4], g):
+            ctx.nontriv(o[3] + '\n--\n' + o[4])
+        key = 'ok' if g.startswith('ok') else (' '.join(g.split(' ')[:3]) if g.startswith('err') else g.split(' ')[0])
+        ctx.count(stream + ':' + key)
+        if g.startswith('err') and hx(MODULE_NAME) + ':' in g.split(' | ')[0]:
+            ctx.count(stream + ':error-chain-enters-the-module')
+        ctx.count(stream + ':moved-%d-definitions' % min(len(o[1].moved), 6))
+        res.append((o[0], o[1], o[2], o[3], o[4], g))
+    ctx.count(stream + ':spec-unspecified', n_unspec)
+    ctx.count(stream + ':model-unmodelled', n_unmod)
+    for k in (0, n // 2, n - 1):
+        ctx.sample({'stream': stream, 'main': out[k][3], 'module': out[k][4], 'go': go[k], 'model': model[k], 'spec': spec[k]})
+    ctx.streams.append({'stream': stream, 'cases': n, 'spec_unspecified': n_unspec, 'model_unmodelled': n_unmod})
+    return res
+
+
 def replay(ctx, data):
     case = data['case']
     g = ctx.run_go([case])[0]
     print('go   :', g)
+    if case.startswith('runfiles '):
+        f = case.split(' ')
+        k = int(f[1])
+        parts = ['runfilesast', f[2 + 2 * k], str(k)]
+        for i in range(k):
+            src = ''.join(chr(int(x, 16)) for x in f[3 + 2 * i].split('.')) if f[3 + 2 * i] != '-' else ''
+            print('--- file', bytes.fromhex(f[2 + 2 * i]).decode())
+            print(src)
+            a = ctx.run_go(['ast ' + f[3 + 2 * i]])[0]
+            toks = a[3:].split(' ') if a.startswith('ok ') else []
+            parts += [f[2 + 2 * i], str(len(toks))] + toks
+        print('model:', ctx.run_lean([' '.join(parts + f[3 + 2 * k:])])[0])
     if case.startswith('run '):
         f = case.split(' ')
         a = ctx.run_go(['ast ' + f[1]])[0]
